@@ -140,6 +140,20 @@ Fixpoint crc_ok (rs : list rec) : bool :=
      end) && crc_ok t
   end.
 
+(* with checksums on the writer computes EVERY checksum (_flush_wl: segment body, _onwrite: payload; Proto.step):
+   0 is then no licence - a record whose stored checksum is not the computed one was not written by this
+   protocol.  Checked on every real log taken with check_crc_on_checkpoint. *)
+Fixpoint crc_full (rs : list rec) : bool :=
+  match rs with
+  | [] => true
+  | r :: t =>
+    (match r with
+     | RSep crc len => crc32 (firstn (Z.to_nat len) (encode t)) 0 =? crc
+     | RWrite crc _ p => crc32 p 0 =? crc
+     | _ => true
+     end) && crc_full t
+  end.
+
 (* offsets of the savepoint records of rs (rs starting at pos) *)
 Fixpoint sp_offsets (rs : list rec) (pos : Z) : list Z :=
   match rs with
